@@ -228,7 +228,12 @@ def dominates_call(ctx: Ctx, func: str, guard_env: dict[str, Any], call_name: st
     reach, _ = _pruned_reach(g, guard_env, ENTRY)
     from ..cfg import stmt_calls
 
-    sites = [n for n in g.stmts if any((dotted(c.func) or "").split(".")[-1] == call_name for c in stmt_calls(g.stmts[n]))]
+    def _callee(c: ast.Call) -> str:
+        if isinstance(c.func, ast.Attribute):
+            return c.func.attr
+        return (dotted(c.func) or "").split(".")[-1]
+
+    sites = [n for n in g.stmts if any(_callee(c) == call_name for c in stmt_calls(g.stmts[n]))]
     if not sites:
         return unres("R8", func, label, f"no call of {call_name} found", f.loc)
     hit = [n for n in sites if n in reach]
@@ -333,6 +338,7 @@ ANY_SPELLINGS = (
 EXTRA_CANON_SPECS = [
     Guard(FUNC + "evidence", "partial-multivariate", {"isinstance(sl, InputLayer)": True, "sl.scope & scope": True, "sl.scope <= scope": False}),
     Guard("cirkit.backend.torch.queries.IntegrateQuery._layer_fn", "nothing-selected", {"isinstance(layer, TorchInputLayer)": True, "layer.num_variables > 1": False, **{k: False for k in ANY_SPELLINGS}}),
+    Guard("cirkit.templates.logic.graph.LogicalCircuit.smooth", "smoothing-conjoins", {"len(missing_literals) > 0": True, "isinstance(input_to_d, ConjunctionNode)": False}),
     Guard(FUNC + "multiply", "overlap-different-scope", {"sc1.scope != sc2.scope": False, "are_compatible(sc1, sc2)": True, "pair in layers_to_block": False,
           "sc1.layer_scope(l1) & sc2.layer_scope(l2)": True, "sc1.layer_scope(l1) != sc2.layer_scope(l2)": True}),
     Guard(FUNC + "multiply", "disjoint-different-size", {"sc1.scope != sc2.scope": False, "are_compatible(sc1, sc2)": True, "pair in layers_to_block": False,
